@@ -96,6 +96,15 @@ prop("C03", "A full sync reproduces the source snapshot's dataset on the target"
      "non-trivial (measured) = distinct case in which both replay paths were taken (>=1 RESTORE accepted and >=1 native expansion command executed) and a compact encoding held a negative or >=24-bit integer. "
      "Oracle: (1) every RESTORE payload == type byte + the writer's serialization of that key + footer(version<=13, CRC64 by ref/crc64); (2) final keyspace of the double == dataset under the db map (type, list order, members, bit-exact scores, fields, stream entries/ids/last-id/entries-added/max-deleted/groups/PELs), no extra keys; (3) |target expiry - source expiry| <= 60 s, past expiries gone or expiring within 60 s.",
      [{"pkg": "c03", "test": "TestC03",
-       "quick": {"checks": 1600, "shards": 8, "timeout": 600},
-       "thorough": {"checks": 48000, "shards": 16, "timeout": 5400}}],
+       "quick": {"checks": 8000, "shards": 8, "timeout": 600},
+       "thorough": {"checks": 400000, "shards": 16, "timeout": 5400}}],
+     RDB_ASSUME)
+
+prop("C20", "Pre-existing target keys are handled as the configured policy says, on any path", "exploration",
+     "a case = C03's snapshot generator (<=8 keys, all encodings) x replay configuration x policy {replace, ignore, error} x pre-populated target: each snapshot key exists beforehand with probability 1/2, with the same or another type (string/list/set/zset/hash/stream), with or without a TTL, plus optionally a key outside the snapshot. "
+     "The replay path of each pre-existing key (RESTORE / native expansion / split into chunks) follows from restore on/off, MaxProtoBulkLen and the split threshold and is measured. non-trivial = distinct case with a pre-existing key of a DIFFERENT type on the expansion path, or a pre-existing key under a split value. "
+     "Oracle: replace -> final value/expiry of every snapshot key == snapshot (C03 comparison); ignore -> every pre-existing key byte-identical (value, type, expiry), other keys as in C03; error -> Send returns an error iff a snapshot key pre-existed, and every pre-existing key is unmodified; keys outside the snapshot never change.",
+     [{"pkg": "c20", "test": "TestC20",
+       "quick": {"checks": 6000, "shards": 8, "timeout": 600},
+       "thorough": {"checks": 300000, "shards": 16, "timeout": 5400}}],
      RDB_ASSUME)
